@@ -1,11 +1,13 @@
 (* Props/C05.v — Evaluation with unknown values soundly approximates every concrete evaluation.
    Only the property theorems, each closed by [exact], with Print Assumptions.
    Model: Eval/Impl.v (hclsyntax/expression*.go, ops.go), Cty/*.v (go-cty, modelled not verified).
-   Proofs: Eval/UnknownSound_*.v, Eval/UnknownSound.v. *)
+   Proofs: Eval/UnknownSound_*.v (Fn: function contract; Frag: fragment, clean, related contexts; Inv, Core,
+   Call, Join, Splat, For: one lemma per construct), Eval/UnknownSound.v. *)
 From Coq Require Import QArith.
 From HclV Require Import Base.Prelude Cty.Values Cty.Convert Cty.Ops Eval.Impl Eval.Funcs
                          Eval.UnknownSound_Base Eval.UnknownSound_Known Eval.UnknownSound_Gamma
-                         Eval.UnknownSound_Ops Eval.UnknownSound_Eq Eval.UnknownSound.
+                         Eval.UnknownSound_Ops Eval.UnknownSound_Eq Eval.UnknownSound_Fn Eval.UnknownSound_Frag
+                         Eval.UnknownSound.
 Open Scope Z_scope.
 
 (* ---- converse part: no unknown out of nothing (WHOLE language) ------------------------------------------
@@ -49,16 +51,53 @@ Theorem C05_fn_null_dyn_refuted :
   = (dyn_val, []).
 Proof. exact fn_null_dyn_refuted. Qed.
 
-(* ---- soundness for the expression core ---------------------------------------------------------------------
-   [in_fragment]: literals, scope and relative traversals, index, tuple and object constructors,
-   object keys, the anonymous symbol (bound), unary operators, all binary operators (the
-   short-circuit table of && and ||, arithmetic, comparison, == and !=), conditional, templates,
-   parentheses/template wrap.
-   [ctx_rel cA cC]: same frames and names, same function tables; every abstract variable is
-   concretised by the concrete one ([gsb]); all values unmarked, well typed, numbers canonical.
+(* ---- the contract for functions, and function.Call under it ---------------------------------------------------
+   [fn_ok f] (Eval/UnknownSound_Fn.v): [fn_known f] (the contract of the converse part); parameters
+   declared with a primitive type or cty.DynamicPseudoType; the implementation preserves the side
+   invariant, returns a value of the declared return type ([fo_type]), the declared return type of
+   the concrete arguments conforms to the one of the abstract arguments ([fo_rt]), and the
+   implementation is monotone for [gsb] on the argument lists for which go-cty RUNS it ([fo_impl]).
+   go-cty runs it only when no argument of dynamic type meets a parameter without AllowDynamicType
+   (otherwise the call returns DynamicVal) and no unknown argument meets a parameter without
+   AllowUnknown (otherwise the call returns UnknownVal(declared return type)); so [fo_impl] speaks
+   about unknown arguments only for AllowUnknown parameters, and the two short-cuts are proved sound
+   from [fn_known], [fo_type] and [fo_rt] alone.
+   [arg_ok]: the concrete arguments are wholly known, and one of dynamic type (a null) is passed
+   only to a parameter declared dynamic (cf. C05_fn_null_dyn_refuted above). *)
+Theorem C05_fn_contract_mono :
+  forall f, fn_ok f ->
+  forall argsA argsC vA vC,
+    Forall (fun a => inv a = true) argsA -> Forall (fun a => inv a = true) argsC ->
+    Forall2 (fun a c => gsb a c = true) argsA argsC ->
+    Forall2 (arg_ok f) (seq 0 (length argsC)) argsC ->
+    fn_call f argsA = CallOk vA -> fn_call f argsC = CallOk vC -> gsb vA vC = true.
+Proof. exact fn_contract_mono. Qed.
+Print Assumptions C05_fn_contract_mono.
+
+(* the six functions of the harness satisfy it *)
+Theorem C05_harness_functions_ok :
+  fn_ok fn_upper /\ fn_ok fn_sum /\ fn_ok fn_first /\ fn_ok fn_fail /\ fn_ok fn_isnull /\ fn_ok fn_pair.
+Proof. exact (conj fn_upper_ok (conj fn_sum_ok (conj fn_first_ok (conj fn_fail_ok (conj fn_isnull_ok fn_pair_ok))))). Qed.
+Print Assumptions C05_harness_functions_ok.
+
+(* ---- soundness for the whole expression language, on clean evaluations -----------------------------------------
+   [in_fragment]: every constructor of [expr] — literals, scope and relative traversals, index,
+   tuple and object constructors, object keys, the anonymous symbol (bound), unary and binary
+   operators (the short-circuit table of && and ||, arithmetic, comparison, == and !=),
+   conditional, templates and template joins, parentheses/template wrap, function calls (with and
+   without expansion of the last argument), splat (known and unknown sources, length refinements,
+   auto-upgrade of non-sequences incl. the possibly-null unknown), for expressions (tuple and
+   object form, condition, key, grouping; unknown collection, condition, key).  The only syntactic
+   restrictions: literals are wholly known, unmarked, canonical ([lit_ok]); traversal steps carry
+   such keys ([step_inv]).
+   [ctx_rel cA cC]: same frames and names, same function tables, every function satisfies
+   [fn_ok]; every abstract variable is concretised by the concrete one ([gsb]); all values
+   unmarked, well typed, numbers canonical.
    [clean]: the evaluation and every sub-evaluation it performs is free of errors and of
-   S_Unsupported (diagnostics that Go discards are not allowed either), and at every
-   conditional both results are a literal null or have a type without dynamic part.
+   S_Unsupported (diagnostics that Go discards are not allowed either); at every conditional
+   both results are a literal null or have a type without dynamic part; at a splat over a list
+   or set the source is not empty and the per-element result type has no dynamic part (see
+   C05_splat_list_dyn_elem_strict_refuted); the tuple of a template join is not null.
    Conclusion: strict concretisation (known parts equal, type tags included; an unknown is
    concretised by a wholly known value of conforming type satisfying every refinement). *)
 Theorem C05_unknown_sound_partial :
@@ -105,6 +144,27 @@ Theorem C05_cond_unselected_arm_eq_refuted :
 Proof. exact cond_unselected_arm_eq_refuted. Qed.
 Print Assumptions C05_cond_unselected_arm_eq_refuted.
 
+(* why [clean] restricts splat over lists/sets: the strict relation fails on the list's element type tag
+   (list(dynamic) abstractly, list(number) concretely); the relation with conversion holds.
+     x = [] : list(list(number)):  x[*][y]  with y unknown(dynamic) / 0
+     x = [[1]]                  :  x[*][y]  with y unknown(dynamic) / 0 *)
+Theorem C05_splat_list_dyn_elem_strict_refuted :
+  value (w3_ctx w3_empty dyn_val) w3_expr = (VList TDyn [], []) /\
+  value (w3_ctx w3_empty (VNum (nz 0))) w3_expr = (VList TNum [], []) /\
+  gsb (VList TDyn []) (VList TNum []) = false /\ gammab (VList TDyn []) (VList TNum []) = true /\
+  value (w3_ctx w3_one dyn_val) w3_expr = (VList TDyn [dyn_val], []) /\
+  value (w3_ctx w3_one (VNum (nz 0))) w3_expr = (VList TNum [VNum (nz 1)], []) /\
+  gsb (VList TDyn [dyn_val]) (VList TNum [VNum (nz 1)]) = false /\
+  gammab (VList TDyn [dyn_val]) (VList TNum [VNum (nz 1)]) = true.
+Proof. exact splat_list_dyn_elem_strict_refuted. Qed.
+Print Assumptions C05_splat_list_dyn_elem_strict_refuted.
+(* model gap (Go panics; not reachable from HCL text): template join over a null tuple of dynamic type *)
+Theorem C05_join_null_tuple_model_gap :
+  value [mkFrame (Some [(w_x, VNull TDyn)]) None] w5_expr = (VUnk TStr rf_none, []) /\
+  clean 3 [mkFrame (Some [(w_x, VNull TDyn)]) None] None w5_expr = false.
+Proof. exact join_null_tuple_model_gap. Qed.
+Print Assumptions C05_join_null_tuple_model_gap.
+
 (* ---- non-vacuity ------------------------------------------------------------------------------------------------
    u : unknown bool / true,  s : unknown string / "ab",  n : unknown number in [2,3] not null / 3
    [ u ? 1 : 5,  "x-${s}",  u && false,  u ? n : 7,  -n ]  *)
@@ -128,7 +188,7 @@ Example C05_example_hypotheses :
   clean 4 ex_ctxA None ex_expr = true /\ clean 4 ex_ctxC None ex_expr = true.
 Proof.
   split; [repeat constructor|]. split.
-  - constructor; [|constructor]. split; [|reflexivity]. simpl.
+  - apply CR_cons; [|apply CR_nil]. split; [|split; [reflexivity|intros fs E; discriminate]]. simpl.
     repeat constructor; vm_compute; reflexivity.
   - split; vm_compute; reflexivity.
 Qed.
@@ -149,4 +209,69 @@ Example C05_example_conclusion :
 Proof.
   destruct C05_example_hypotheses as [F [R [KA KC]]].
   exact (C05_unknown_sound_partial 4 ex_expr ex_ctxA ex_ctxC None None F R I KA KC).
+Qed.
+
+(* calls, splat, for, template join:  l : [unknown number, 2] / [1, 2],  s : unknown string / "ab"
+   [ upper(s),  sum(l...),  l[*] + 1 (splat),  [for v in l : v + 1 if v > 1],
+     {for k, v in l : "k${k}" => v...},  "${join of [for v in l : v]}" ]  *)
+Definition ex2_l : list Z := [108].
+Definition ex2_v : list Z := [118].
+Definition ex2_k : list Z := [107].
+Definition ex2_funcs := Some harness_funcs.
+Definition ex2_ctxA : ctx :=
+  [mkFrame (Some [(ex2_l, VList TNum [VUnk TNum rf_none; VNum (nz 2)]); (ex_s, VUnk TStr rf_none)]) ex2_funcs].
+Definition ex2_ctxC : ctx :=
+  [mkFrame (Some [(ex2_l, VList TNum [VNum (nz 1); VNum (nz 2)]); (ex_s, VStr [97; 98])]) ex2_funcs].
+Definition ex2_L := EScopeTrav ex2_l [].
+Definition ex2_V := EScopeTrav ex2_v [].
+Definition ex2_one := ELit (VNum (nz 1)).
+Definition ex2_expr : expr :=
+  ETuple [ ECall [117; 112; 112; 101; 114] [EScopeTrav ex_s []] false;
+           ECall [115; 117; 109] [ex2_L] true;
+           ESplat ex2_L (EBin OpAdd EAnon ex2_one);
+           EFor [] ex2_v ex2_L None (EBin OpAdd ex2_V ex2_one) (Some (EBin OpGt ex2_V ex2_one)) false;
+           EFor ex2_k ex2_v ex2_L (Some (ETmpl [ELit (VStr [107]); EScopeTrav ex2_k []])) ex2_V None true;
+           EJoin (EFor [] ex2_v ex2_L None ex2_V None false) ].
+
+Example C05_example2_hypotheses :
+  in_fragment ex2_expr /\ ctx_rel ex2_ctxA ex2_ctxC /\
+  clean 6 ex2_ctxA None ex2_expr = true /\ clean 6 ex2_ctxC None ex2_expr = true.
+Proof.
+  split.
+  { apply F_tuple. repeat (apply Forall_cons || apply Forall_nil).
+    - apply F_call. repeat constructor.
+    - apply F_call. repeat constructor.
+    - apply F_splat; repeat constructor.
+    - apply F_for; [repeat constructor|intros k E; discriminate E|repeat constructor|].
+      intros ce E. injection E as <-. repeat constructor.
+    - apply F_for; [repeat constructor| |repeat constructor|intros ce E; discriminate E].
+      intros k E. injection E as <-. repeat constructor.
+    - apply F_join. apply F_for; [repeat constructor|intros k E; discriminate E|repeat constructor|intros ce E; discriminate E]. }
+  split.
+  - apply CR_cons; [|apply CR_nil]. split; [|split; [reflexivity|]].
+    + simpl. repeat constructor; vm_compute; reflexivity.
+    + intros fs E. injection E as <-. exact harness_funcs_ok.
+  - split; vm_compute; reflexivity.
+Qed.
+
+Example C05_example2_values :
+  fst (eval 6 ex2_ctxA None ex2_expr) =
+    VTuple [ VUnk TStr rf_none;
+             VUnk TNum rf_none;
+             VList TNum [VUnk TNum rf_notnull; VNum (nz 3)];
+             dyn_val;
+             VObj [([107; 48], VTuple [VUnk TNum rf_none]); ([107; 49], VTuple [VNum (nz 2)])];
+             VUnk TStr rf_none ] /\
+  fst (eval 6 ex2_ctxC None ex2_expr) =
+    VTuple [ VStr [65; 66]; VNum (nz 3); VList TNum [VNum (nz 2); VNum (nz 3)];
+             VTuple [VNum (nz 3)];
+             VObj [([107; 48], VTuple [VNum (nz 1)]); ([107; 49], VTuple [VNum (nz 2)])];
+             VStr [49; 50] ].
+Proof. split; vm_compute; reflexivity. Qed.
+
+Example C05_example2_conclusion :
+  gamma_strict (fst (eval 6 ex2_ctxA None ex2_expr)) (fst (eval 6 ex2_ctxC None ex2_expr)).
+Proof.
+  destruct C05_example2_hypotheses as [F [R [KA KC]]].
+  exact (C05_unknown_sound_partial 6 ex2_expr ex2_ctxA ex2_ctxC None None F R I KA KC).
 Qed.
